@@ -77,7 +77,7 @@ def sorted_unsliced_sql(tree):
     return tree[0] == "select" and bool(tree[1]) and tree[4] == (0, None)
 
 
-def restricted_cases(rng, n):
+def restricted_cases(rng, n, keep_term=False):
     """Operations whose expression only one engine kind supports, issued with every kind of preferred-engine option on
     top of a multi-engine program: accepted only if the operation lands in a supporting engine."""
     out, outcomes = [], {}
@@ -104,7 +104,8 @@ def restricted_cases(rng, n):
         t = enc.cresult(res2[0], enc.ctree(res2[1]) if res2[0] == "ok" else res2[1])
         key = "accepted" if res2[0] == "ok" else res2[1]
         outcomes[key] = outcomes.get(key, 0) + 1
-        out.append({"json": {"program": jsonable(q), "impl": jsonable(res2)}, "coq": f"SUPCase {mp.cprog(q)} {t}",
+        out.append({"json": {"program": jsonable(q), "impl": jsonable(res2), **({"program_term": q} if keep_term else {})},
+                    "coq": f"SUPCase {mp.cprog(q)} {t}",
                     "nontrivial": True, "key": mp.cprog(q)})
     return out, outcomes
 
